@@ -24,7 +24,7 @@ PRESSURE_ATM = 1.5
 
 
 def cfg(**c):
-    base = dict(W=2, SchedMode='"fifo"', NamesOrder='"kept_first"', MapOrder='"disk"')
+    base = dict(W=2, SchedMode='"fifo"', NamesOrder='"kept_first"', MapOrder='"disk"', NNewSet="{1,2}")
     base.update(c)
     return {"INIT": "Init", "NEXT": "Next", "DEFS": {"Names": '<<"a","b","c">>'}, "CONSTANTS": base,
             "INVARIANTS": INV, "PROPERTIES": ["InputUnchanged"]}
@@ -33,15 +33,18 @@ def cfg(**c):
 def models(tier):
     if tier == "quick":
         return [("content", cfg(MaxLev=2, MaxBox=2, MaxFile=2)),
-                ("schedules", cfg(MaxLev=1, MaxBox=3, MaxFile=3, SchedMode='"all"'))]
+                ("schedules", cfg(MaxLev=1, MaxBox=3, MaxFile=3, SchedMode='"all"')),
+                ("per-species recipe over all species", cfg(MaxLev=1, MaxBox=2, MaxFile=2, NNewSet="{10}"))]
     return [("content", cfg(MaxLev=2, MaxBox=3, MaxFile=2)),
-            ("schedules", cfg(MaxLev=2, MaxBox=3, MaxFile=3, SchedMode='"all"', W=3))]
+            ("schedules", cfg(MaxLev=2, MaxBox=3, MaxFile=3, SchedMode='"all"', W=3)),
+            ("per-species recipe over all species", cfg(MaxLev=2, MaxBox=2, MaxFile=2, NNewSet="{10}"))]
 
 
 # recipe families: name -> (nnew, thermo?)
 RECIPES = {"u1": (1, False), "c1": (1, False), "u2": (2, False),
            "s1": (1, True), "HRR": (1, True), "ENT": (1, True), "SRi1": (1, True),
-           "s2": (2, True), "SRi2": (2, True), "SDi2": (2, True), "RRi2": (2, True), "cs2": (2, True)}
+           "s2": (2, True), "SRi2": (2, True), "SDi2": (2, True), "RRi2": (2, True), "cs2": (2, True),
+           "SRiall": (10, True), "SDiall": (10, True)}
 SP2 = ["O2", "H2"]
 RX2 = [3, 0]
 
@@ -97,6 +100,10 @@ def new_expected(recipe, arrs, shape, thermo, pressure=None):
             vals = [gas.mix_diff_coeffs_mass[gas.species_index(s)] for s in SP2]
         elif recipe == "RRi2":
             vals = [gas.net_rates_of_progress[r] for r in RX2]
+        elif recipe == "SRiall":
+            vals = list(gas.net_production_rates)
+        elif recipe == "SDiall":
+            vals = list(gas.mix_diff_coeffs_mass)
         for o, v in zip(out, vals):
             o[ijk] = v
     return out
@@ -130,6 +137,12 @@ def chef_kwargs(recipe, pressure=None):
     if recipe == "RRi2":
         kw["reactions"] = list(RX2)
         return "RRi", kw, ["R%d" % r for r in RX2]
+    if recipe == "SRiall":
+        kw["species"] = ["all"]
+        return "SRi", kw, ["IRm(%s)" % s for s in SPECIES]
+    if recipe == "SDiall":
+        kw["species"] = "all"
+        return "SDi", kw, ["DI(%s)" % s for s in SPECIES]
     raise core.MachineryError(recipe)
 
 
@@ -278,6 +291,8 @@ def run_histories(chk, scenarios):
 def pick_recipe(nnew, i, tier):
     fam = [r for r, (n, t) in sorted(RECIPES.items()) if n == nnew]
     plain = [r for r in fam if not RECIPES[r][1]]
+    if not plain:
+        return fam[i % len(fam)]
     # one scenario in three goes through cantera
     if i % 3 == 2:
         th = [r for r in fam if RECIPES[r][1]]
